@@ -10,6 +10,15 @@ def run(ctx):
     cases = base.build_cases(ctx, eng.lib, 'C05')
     ctx.log('%d streams, %d (stream, chunking) evaluations' % (len(cases), sum(base.n_chunkings(c) for c in cases)))
     eng.evaluate(cases)
+    # the witness of C05_values_legacy_refuted on the repaired implementation: one call and split between the messages agree
+    w = [c for c in cases if c.origin == 'corpus:coq-witness-wrapper4-small.json']
+    if w:
+        _, a = eng.verbose(w[0], 'ONE')
+        _, b = eng.verbose(w[0], 'c:36,28')
+        items = lambda v: [it for _, it in base.parse_items(v['impl_R'])]
+        ok = isinstance(a, dict) and isinstance(b, dict) and items(a) == items(b) and len(items(a)) >= 1 and '!' not in a['impl_R'] + b['impl_R']
+        ctx.obligation('legacy witness (wrapper with 4 data bytes + next message) now decodes to the same payload values in one call and split',
+                       ok, 'witness-replay', (a['impl_R'][-60:] + ' / ' + b['impl_R'][-60:]) if ok else repr((a, b))[:400])
     base.common_evidence(ctx, eng, 'C05', cases)
 
 
